@@ -7,6 +7,7 @@ import TexcraftModel.Model.C10
 * `rawpre <len> <b0> … <bk>`                                → outcome of the pre-fix model
 * `chk <len> <12 sizes> <bc> <ec> <11 × start stop>`        → `1`/`0`: spec `layoutOKB` on a
                                                                claimed (real) layout
+* `hb <12 sizes>`                                           → the 24 bytes `headerBytes` writes
 * `vf <nw> <nh> <nd> <ni> <n> <n × (w h d i)>`              → clamped indices, then `1`/`0`
                                                                (all in range)
 * `tag <nl> <ne> <kind> <value> <exists01>`                 → `drop` / `keep`
@@ -88,6 +89,11 @@ def handle (line : String) : String :=
         toString (b2i (layoutOKB len L && sl.length == 11))
       | none => "bad-request"
     | _, _ => "bad-request"
+  | "hb" :: ws =>
+    match ints? ws with
+    | some [lf, lh, bc, ec, nw, nh, nd, ni, nl, nk, ne, np] =>
+      showNats (headerBytes ⟨lf, lh, bc, ec, nw, nh, nd, ni, nl, nk, ne, np⟩)
+    | _ => "bad-request"
   | "vf" :: ws =>
     match nats? ws with
     | some (nw :: nh :: nd :: ni :: n :: rest) =>
